@@ -250,7 +250,7 @@ def run(ctx: Ctx):
                    "self.nonterminal_tip_states.append(node.state)"])
     ctx.check(g1 is not None, "SG-1", sg, sg.node, "solution graph follows each node's optimal action from the initial states; unexpanded nodes are tips", "", "solution-graph traversal changed")
     isol = P.cls("SolutionGraph").methods["is_solved"]
-    ctx.check(Snips(isol).has("return len(self.nonterminal_tip_states) == 0"), "SG-1", isol, isol.node, "solved = no non-terminal tips", "", "solved predicate changed")
+    ctx.check(Snips(isol).has("return len(self.nonterminal_tip_states) == 0") or Snips(isol).has("return not self.nonterminal_tip_states"), "SG-1", isol, isol.node, "solved = no non-terminal tips", "", "solved predicate changed")
     # ---- planner
     L = P.cls("LAOStar")
     po = L.methods["plan_on"]
